@@ -6,6 +6,7 @@ import CtrlVerif.Props.C15GenForm
 import CtrlVerif.Props.C15GenKeys
 import CtrlVerif.Props.C15GenReduce
 import CtrlVerif.Props.C15Flag
+import CtrlVerif.Props.C15GenMinreal
 
 #print axioms CtrlVerif.C15.timescale_resp
 #print axioms CtrlVerif.C15.similarity_relations
@@ -95,3 +96,9 @@ import CtrlVerif.Props.C15Flag
 #print axioms CtrlVerif.C15Flag.generated_similarityF_eq
 #print axioms CtrlVerif.C15Flag.similarityF_resp
 #print axioms CtrlVerif.C15Flag.falsy_relations
+#print axioms CtrlVerif.C15GenMinreal.step_match
+#print axioms CtrlVerif.C15GenMinreal.delete_first
+#print axioms CtrlVerif.C15GenMinreal.generated_zLoop_eq
+#print axioms CtrlVerif.C15GenMinreal.generated_entryBody_eq
+#print axioms CtrlVerif.C15GenMinreal.generated_zLoop_sublists
+#print axioms CtrlVerif.C15GenMinreal.generated_close_eq_closeQ
